@@ -90,3 +90,24 @@ type Holder struct {
 	DocID uint
 	Doc   Doc
 }
+
+// One field per permission tag of C10, tracked times, and a create-denied
+// column with a database-side default.
+type Perm struct {
+	ID         uint
+	Plain      string
+	Num        int
+	CreateOnly int    `gorm:"<-:create"`
+	UpdateOnly int    `gorm:"<-:update"`
+	NoWrite    int    `gorm:"<-:false"`
+	ReadOnly   int    `gorm:"->"`
+	NoRead     int    `gorm:"->:false"`
+	WriteOnly  int    `gorm:"<-;->:false"`
+	Ignored    int    `gorm:"-"`
+	NoMig      int    `gorm:"-:migration"`
+	IgnAll     int    `gorm:"-:all"`
+	Serial     string `gorm:"default:(next_serial());->"`
+	Stamp      string `gorm:"default:(now_text());<-:update"`
+	CreatedAt  time.Time
+	UpdatedAt  time.Time
+}
